@@ -9,7 +9,7 @@ From L60870 Require Import Link.Ft12.
 Import ListNotations.
 Local Open Scope Z_scope.
 
-Record variant := { fa : bool; fb : bool; fc_ : bool; fd : bool; fe : bool; ff : bool }.
+Record variant := { fa : bool; fb : bool; fc_ : bool; fd : bool; fe : bool; ff : bool; fg : bool; fh : bool; fi : bool }.
 
 Record llcfg := { alen : Z; single_ack : bool; t_ack : Z; t_rep : Z; t_ls : Z }.
 
@@ -86,7 +86,8 @@ Definition su_request (c : llcfg) (s : su) (class1 : bool) (fcb fcv : bool) : su
   end.
 
 (* LinkLayerSecondaryUnbalanced_handleMessage *)
-Definition su_handle (c : llcfg) (s0 : su) (fc : Z) (bc fcb fcv : bool) (msg : list Z) (uds udl : Z) : su * list out :=
+(* fi_ = variant fi: a frame with FCV = 1 whose service is not implemented still takes part in the alternation of the frame count bit *)
+Definition su_handle (fi_ : bool) (c : llcfg) (s0 : su) (fc : Z) (bc fcb fcv : bool) (msg : list Z) (uds udl : Z) : su * list out :=
   let '(s, o0) := su_set_state s0 LS_AVAILABLE in
   let err := let '(s', o) := su_set_state s LS_ERROR in (s', o0 ++ o) in
   if fc =? 9 then
@@ -109,7 +110,8 @@ Definition su_handle (c : llcfg) (s0 : su) (fc : Z) (bc fcb fcv : bool) (msg : l
   else if fc =? 4 then
     if fcv then err
     else (s, o0 ++ (if udl >? 0 then [OInd bc (user_data msg uds udl)] else []))
-  else (s, o0 ++ [OTx (enc_fixed (alen c) 15 (su_addr s) false false false false)]).
+  else (if fi_ && fcv && Bool.eqb fcb (su_efcb s) then su_with_efcb s (negb (su_efcb s)) else s,
+        o0 ++ [OTx (enc_fixed (alen c) 15 (su_addr s) false false false false)]).
 
 (* ParserHeaderSecondaryUnbalanced on one delimited frame *)
 Definition su_on_msg (v : variant) (c : llcfg) (now : Z) (s0 : su) (msg : list Z) : su * list out :=
@@ -117,7 +119,7 @@ Definition su_on_msg (v : variant) (c : llcfg) (now : Z) (s0 : su) (msg : list Z
   match parse_su (ff v) (alen c) (su_addr s) msg with
   | SuErr => su_set_state s LS_ERROR
   | SuIgnore => (s, [])
-  | SuOk fc bc fcb fcv uds udl => su_handle c s fc bc fcb fcv msg uds udl
+  | SuOk fc bc fcb fcv uds udl => su_handle (fi v) c s fc bc fcb fcv msg uds udl
   end.
 
 (* LinkLayerSecondaryUnbalanced_run: at most one frame, then the idle supervision *)
